@@ -316,3 +316,30 @@ Proof.
   destruct (stream_roundtrip [o; o] (Forall_cons _ H (Forall_cons _ H (Forall_nil _)))) as (ds & H1 & H2).
   exists ds. split; [exact H1|]. cbn [map concat] in H2. rewrite H2. reflexivity.
 Qed.
+
+(* ---------- C05, reader side at the stream level: the running object counter ---------- *)
+Definition counted (o : wobj) : bool := negb (w_code o =? 115).
+
+Lemma next_count_fold : forall objs c,
+  fold_left (fun c o => next_count o c) objs (c mod 2 ^ 32) = (c + Z.of_nat (length (filter counted objs))) mod 2 ^ 32.
+Proof.
+  induction objs as [|o r IH]; intros c; cbn [fold_left filter length].
+  - rewrite Z.add_0_r. reflexivity.
+  - unfold next_count at 2, counted at 1. destruct (w_code o =? 115); cbn [negb].
+    + apply IH.
+    + rewrite Zplus_mod_idemp_l. rewrite IH. cbn [length]. f_equal. lia.
+Qed.
+
+(* the parser's currentObjectCount after the stream of any list of well-formed objects: the objects written, restore-point
+   objects (type 115) excluded, modulo 2^32 — the value write_session puts into the header (C05_header) when it is told the
+   same thing about each object *)
+Theorem stream_count : forall objs, Forall wobj_ok objs ->
+  let U := concat (map w_bytes objs) in
+  snd (fst (OL (2 * length U + 16) (mk_ustream U) [] 0)) = Z.of_nat (length (filter counted objs)) mod 2 ^ 32.
+Proof.
+  intros objs Hall U. destruct (stream_roundtrip objs Hall) as (ds & _ & E). fold U in E. rewrite E. cbn [fst snd].
+  change 0 with (0 mod 2 ^ 32) at 1. rewrite next_count_fold. reflexivity.
+Qed.
+
+Lemma counted_tags objs : length (filter snd (map (fun o => (w_bytes o, counted o)) objs)) = length (filter counted objs).
+Proof. induction objs as [|o r IH]; [reflexivity|]. cbn [map filter snd]. destruct (counted o); cbn [length]; rewrite IH; reflexivity. Qed.
